@@ -82,6 +82,6 @@ finally:
     sh(["git", "-C", "/repo", "worktree", "remove", "--force", wt])
     shutil.rmtree(wt, ignore_errors=True)
     # replays written while running against the mutant are not findings about /repo
-    for f in os.listdir("/verif/replays"):
+    for f in ([] if os.environ.get("CURATE_KEEP_REPLAYS") else os.listdir("/verif/replays")):
         if f.endswith(".json"):
             os.remove(os.path.join("/verif/replays", f))
